@@ -275,11 +275,21 @@ C15Sels == <<SWild, SName(cA), SName(cB), SIndex(0), SFilter(LCmp(">", ERel(<<>>
 C15Segs == [i \in 1..Len(C15Sels) |-> Child(<<C15Sels[i]>>)] \o [i \in 1..Len(C15Sels) |-> Desc(<<C15Sels[i]>>)]
 C15Queries == TuplesUpTo(C15Segs, IF Thorough THEN 3 ELSE 2)
 
+(* ---------- C01D: deeply nested documents (beyond serde_json's parser limit of 128) ----------- *)
+RECURSIVE NestDoc(_, _)
+NestDoc(kind, n) == IF n = 0 THEN JInt(1)
+                    ELSE IF kind = "obj" \/ (kind = "mix" /\ n % 2 = 0) THEN JObj(<<cA>>, <<NestDoc(kind, n - 1)>>)
+                    ELSE JArr(<<NestDoc(kind, n - 1)>>)
+C01DDepth == IF Thorough THEN 300 ELSE 133
+C01DDocs == <<NestDoc("arr", C01DDepth), NestDoc("obj", C01DDepth), NestDoc("mix", C01DDepth)>>
+C01DQueries == << <<Desc(<<SWild>>)>>, <<Desc(<<SIndex(-1), SName(cA)>>)>>, <<Desc(<<SFilter(LTest(FALSE, ERel(<<>>)))>>)>> >>
+                \o (IF Thorough THEN << <<Desc(<<SIndex(0)>>)>>, <<Desc(<<SName(cA)>>)>>, <<Desc(<<SSlice(ABSENT, ABSENT, -1)>>)>> >> ELSE <<>>)
+
 (* ---------- selection ------------------------------------------------------ *)
 Docs    == CASE Univ = "C01" -> C01Docs [] Univ = "C11" -> C11Docs [] Univ = "C03" -> C03Docs [] Univ = "C04" -> C04Docs
-             [] Univ = "C05" -> C05Docs [] Univ = "C10" -> C10Docs [] Univ = "C14" -> C14Docs [] Univ = "C15" -> C15Docs
+             [] Univ = "C05" -> C05Docs [] Univ = "C10" -> C10Docs [] Univ = "C14" -> C14Docs [] Univ = "C15" -> C15Docs [] Univ = "C01D" -> C01DDocs
 Queries == CASE Univ = "C01" -> C01Queries [] Univ = "C11" -> C11Queries [] Univ = "C03" -> C03Queries [] Univ = "C04" -> C04Queries
-             [] Univ = "C05" -> C05Queries [] Univ = "C10" -> C10Queries [] Univ = "C14" -> C14Queries [] Univ = "C15" -> C15Queries
+             [] Univ = "C05" -> C05Queries [] Univ = "C10" -> C10Queries [] Univ = "C14" -> C14Queries [] Univ = "C15" -> C15Queries [] Univ = "C01D" -> C01DQueries
 StrideN == CASE Univ = "C01" -> C01Stride [] Univ = "C11" -> C11Stride [] Univ = "C05" -> C05Stride [] Univ = "C14" -> C14Stride [] OTHER -> 1
 Mode    == IF "VERIF_MODE" \in DOMAIN IOEnv THEN IOEnv.VERIF_MODE ELSE CASE Univ = "C03" -> "paths" [] OTHER -> "nodes"
 Pick(d, q) == CASE Univ = "C03" -> C03Pick(d, q)
